@@ -14,7 +14,8 @@
      stated for ANY function of (token words, those answers).  That the real parser is such a function is checked by
      checks/C14.py (re-layout test), not proved.
    * Theorems named `_partial` cover the fragment / rest on a hypothesis that is validated by the correspondence check.
-   * The findings (`_refuted`) are replayed on the real formatter by checks/C14.py. *)
+   * The defects the faithful model used to reproduce (`_refuted` theorems of the previous version) are repaired in
+     cst_print.rs; their witnesses are now positive Examples at the end of this file. *)
 From Coq Require Import String Ascii List Bool Arith.
 From Mimium Require Import Fmt.Model Fmt.Render Fmt.Breaks Fmt.Emits Fmt.Witness.
 Import ListNotations.
@@ -38,8 +39,7 @@ Proof. exact emits_all_same_tokens. Qed.
 (* The hypothesis is PROVED for every tree whose nodes are all printed by plain concatenation of their children (statements,
    literals, identifiers, unary / call / parenthesised / field-access / index expressions, type annotations): every token is
    emitted by emit_token_with_trivia, which emits the text and every comment of the trivia.  (For the nodes with a printing
-   state machine -- lists, blocks, if, lambda, let, records -- emits_all is false in general, see the findings below, and is
-   decided per program by the check.) *)
+   state machine -- lists, blocks, if, lambda, let, records -- emits_all is decided per program by the check.) *)
 Theorem C14_emits_all_concat_partial : forall (ind : nat) (c : cst), concat_only c = true -> emits_all ind c.
 Proof. exact emits_all_concat. Qed.
 
@@ -77,54 +77,56 @@ Theorem C14_idempotent_partial :
     option_map (fun c => pick (doc_of ind c)) (parse o) = Some o.
 Proof. exact idempotent_partial. Qed.
 
-(* ---- findings (the faithful model reproduces the defects of the implementation) -------------------------------------- *)
+(* ---- former findings (repaired in cst_print.rs; the model follows the repaired printer) ------------------------------ *)
+(* Each example is the witness of a defect that Props/C14.v used to refute; the sources are regression inputs of
+   checks/C14.py (corpus/C14/cases.txt).  The parser-side finding FM10 (`([a,])`, is_tuple_expr) is not a printer defect
+   and stays in KNOWN_FINDINGS.txt. *)
 
-(* "if (c)\n (a, b) else d": two admissible renderings of the SAME document -- the flat one (picked for wide pages) and the one
-   broken before the then-branch (picked for narrow pages) -- have the same tokens but show the parser different line-break
-   flags at `) (`: the flat one re-parses as the call (c)(a, b).  safe_breaks is false for this document. *)
-Theorem C14_if_then_bracket_refuted :
-  exists r1 r2, in_fragment c_if_then_bracket = true /\
-    In r1 (renderings (doc_of 4 c_if_then_bracket)) /\ In r2 (renderings (doc_of 4 c_if_then_bracket)) /\
-    words r1 = words r2 /\ observed r1 <> observed r2.
-Proof. exact if_then_bracket_unsafe. Qed.
+(* "if (c)\n (a, b) else d": the break before a then-branch that starts with `(` is forced, so no optional break decides
+   a sensitive position (safe_breaks) and C14_breaks_safe applies: every width gives the parser the same flags *)
+Example C14_ex_if_then_bracket_safe :
+  in_fragment c_if_then_bracket = true /\ safe_breaks (doc_of 4 c_if_then_bracket) = true /\ emits_all 4 c_if_then_bracket.
+Proof. exact if_then_bracket_safe. Qed.
 
-(* "(a, /* c */ b)": the document does not contain the comment that sits in the trivia of the comma (emits_all fails) *)
-Theorem C14_comma_comment_refuted :
-  in_fragment c_comma_comment = true /\
-  comments_in (cst_words c_comma_comment) = ["/* c */"] /\ comments_in (dwords (doc_of 4 c_comma_comment)) = [].
-Proof. exact comma_comment_dropped. Qed.
+(* "(a, /* c */ b)": the comment of the comma is emitted *)
+Example C14_ex_comma_comment_kept : in_fragment c_comma_comment = true /\ emits_all 4 c_comma_comment.
+Proof. exact comma_comment_kept. Qed.
 
-(* "if gate {x}": EVERY rendering starts with the single word `ifgate` *)
-Theorem C14_if_without_parenthesis_refuted :
-  in_fragment c_if_word = true /\ all_renderings (doc_of 4 c_if_word) (prefix "ifgate") = true.
-Proof. exact if_word_glued. Qed.
+(* "fn f(){ 1 } // done\n// about g\nfn g(){ 2 }": the comments in the trivia of `}` are emitted *)
+Example C14_ex_brace_comment_kept : in_fragment c_brace_comment = true /\ emits_all 4 c_brace_comment /\
+  comments_in (dwords (doc_of 4 c_brace_comment)) = ["// done"; "// about g"].
+Proof. exact brace_comment_kept. Qed.
 
-(* "- -x": every rendering is `--x` (rejected by the parser: consecutive operators) *)
-Theorem C14_sign_of_signed_refuted :
-  in_fragment c_neg_neg = true /\ all_renderings (doc_of 4 c_neg_neg) (prefix "--x") = true.
-Proof. exact neg_neg_glued. Qed.
+(* "if gate {x}": every rendering starts with `if gate` *)
+Example C14_ex_if_without_parenthesis :
+  in_fragment c_if_word = true /\ all_renderings (doc_of 4 c_if_word) (prefix "if gate") = true.
+Proof. exact if_word_spaced. Qed.
 
-(* "fn f(x:float){x}": every rendering separates the parameter from its type annotation by a comma *)
-Theorem C14_typed_parameter_refuted :
-  in_fragment c_typed_param = true /\ all_renderings (doc_of 4 c_typed_param) (contains "x,") = true.
-Proof. exact typed_param_split. Qed.
+(* "- -x": every rendering is `- -x` *)
+Example C14_ex_sign_of_signed :
+  in_fragment c_neg_neg = true /\ all_renderings (doc_of 4 c_neg_neg) (prefix "- -x") = true.
+Proof. exact neg_neg_spaced. Qed.
 
-(* "| | x": every rendering starts with `||` (the logical-or token) *)
-Theorem C14_lambda_without_parameters_refuted :
-  in_fragment c_lambda0 = true /\ all_renderings (doc_of 4 c_lambda0) (prefix "|| x") = true.
-Proof. exact lambda0_glued. Qed.
+(* "fn f(x:float){x}": the parameter stays with its type annotation *)
+Example C14_ex_typed_parameter :
+  in_fragment c_typed_param = true /\ all_renderings (doc_of 4 c_typed_param) (contains "(x:float)") = true.
+Proof. exact typed_param_together. Qed.
 
-(* "(a,)": every rendering is `(a)` -- the comma that makes it a tuple is gone *)
-Theorem C14_one_element_tuple_refuted :
-  in_fragment c_tuple1 = true /\ all_renderings (doc_of 4 c_tuple1) (String.eqb "(a)") = true.
-Proof. exact tuple1_comma_lost. Qed.
+(* "| | x": the bars stay apart *)
+Example C14_ex_lambda_without_parameters :
+  in_fragment c_lambda0 = true /\ all_renderings (doc_of 4 c_lambda0) (prefix "| | x") = true.
+Proof. exact lambda0_spaced. Qed.
 
-(* "if (a) x = 1 else y": the document lacks the tokens `=` and `1` (emits_all fails): every rendering is `if(a) x else y` *)
-Theorem C14_if_branch_assignment_refuted :
-  in_fragment c_if_assign = true /\
-  cst_words c_if_assign = ["if"; "("; "a"; ")"; "x"; "="; "1"; "else"; "y"] /\
-  dwords (doc_of 4 c_if_assign) = ["if"; "("; "a"; ")"; "x"; "else"; "y"].
-Proof. exact if_assign_dropped. Qed.
+(* "(a,)": the comma that makes it a tuple stays *)
+Example C14_ex_one_element_tuple :
+  in_fragment c_tuple1 = true /\ all_renderings (doc_of 4 c_tuple1) (String.eqb "(a,)") = true.
+Proof. exact tuple1_comma_kept. Qed.
+
+(* "if (a) x = 1 else y": the whole assignment is the then-branch *)
+Example C14_ex_if_branch_assignment :
+  in_fragment c_if_assign = true /\ emits_all 4 c_if_assign /\
+  all_renderings (doc_of 4 c_if_assign) (contains "x = 1") = true.
+Proof. exact if_assign_kept. Qed.
 
 (* ---- the hypotheses of the positive theorems are satisfiable: "fn f(a, b){ let x = g(a, b) + 1 // sum\n  x |> h }" ---- *)
 Example C14_ex_in_fragment : in_fragment c_ok = true.
